@@ -1,0 +1,26 @@
+//go:build verif
+
+// Accessors for the verification harness in /verif (build tag "verif").
+// This file only adds exported wrappers around unexported items; it changes
+// no behaviour and is absent from normal builds.
+
+package processor
+
+import (
+	sdk "github.com/conduitio/conduit-processor-sdk"
+	"github.com/conduitio/conduit/pkg/foundation/log"
+)
+
+// VerifNewRunnableProcessor builds a RunnableProcessor around proc with the
+// given condition template (empty = no condition), the way
+// Service.MakeRunnableProcessor does (newProcessorCondition + newRunnableProcessor)
+// but without a plugin registry or a store.
+func VerifNewRunnableProcessor(proc sdk.Processor, condition string) (*RunnableProcessor, error) {
+	cond, err := newProcessorCondition(condition)
+	if err != nil {
+		return nil, err
+	}
+	inst := &Instance{ID: "verif", Plugin: "verif", Condition: condition}
+	inst.init(log.Nop())
+	return newRunnableProcessor(proc, cond, inst), nil
+}
